@@ -342,7 +342,17 @@ func RunMain(propID, tier string) int {
 					unmatched = append(unmatched, v)
 				}
 			case ro.res != nil:
-				inconclusive = append(inconclusive, fmt.Sprintf("batch %d %s; journaled case does not reproduce alone: %s", b, what, tail(o.log, 400)))
+				// the case is fine alone (a stall of the machine, not of the case): run the whole batch once more, now that
+				// nothing else of this check is running; only if it is lost again does the run stay inconclusive
+				out2 := filepath.Join(dir, fmt.Sprintf("b%d.retry.out", b))
+				jr2 := filepath.Join(dir, fmt.Sprintf("b%d.retry.journal", b))
+				o2 := runChild(batchTimeout(tier), out2, "worker", propID, tier, strconv.FormatInt(seed, 10), strconv.Itoa(b), strconv.Itoa(nb), out2, jr2)
+				if o2.res != nil {
+					counters["batches_rerun_after_unreproducible_death"]++
+					o = o2
+					break
+				}
+				inconclusive = append(inconclusive, fmt.Sprintf("batch %d %s twice; the journaled case of the first attempt does not reproduce alone: %s", b, what, tail(o.log, 400)))
 			default:
 				kind := "worker-death"
 				if ro.timedOut {
@@ -351,7 +361,9 @@ func RunMain(propID, tier string) int {
 				unmatched = append(unmatched, Violation{Prop: propID, Kind: kind, Sig: kind, Input: jb, Batch: b,
 					Detail: "the process evaluating this case " + what + " and does so again when the case is replayed alone: " + tail(ro.log, 1200)})
 			}
-			continue
+			if o.res == nil {
+				continue
+			}
 		}
 		evals += o.res.Evaluations
 		for _, h := range o.res.Shapes {
